@@ -13,6 +13,7 @@ import (
 
 	"github.com/jackalLabs/canine-chain/v4/app"
 	fttypes "github.com/jackalLabs/canine-chain/v4/x/filetree/types"
+	mtypes "github.com/jackalLabs/canine-chain/v4/x/jklmint/types"
 	ntypes "github.com/jackalLabs/canine-chain/v4/x/notifications/types"
 	otypes "github.com/jackalLabs/canine-chain/v4/x/oracle/types"
 	rtypes "github.com/jackalLabs/canine-chain/v4/x/rns/types"
@@ -39,6 +40,7 @@ type chainFam struct {
 	lgUsers map[string]bool
 	lgGauge map[string]bool
 	lgBase  *lgSnap
+	lgPrev  *lgSnap
 	lgBig   bool
 	nreg    int
 }
@@ -78,12 +80,22 @@ func (f *chainFam) Reset() M {
 				f.dead = fmt.Sprint(p)
 			}
 		}()
-		f.c = chain.New(smallParams)
+		muts := []chain.GenMut{smallParams}
+		if f.rng.Intn(6) == 0 { // governance-set emission at the top of the int64 range (valid parameters: only >= 0 is required)
+			tpb := []int64{100_000_000_000_000_000, 200_000_000_000_000_000, 300_000_000_000_000_000, math.MaxInt64, math.MaxInt64 / 50, math.MaxInt64 / 2}[f.rng.Intn(6)]
+			muts = append(muts, func(gs app.GenesisState, a *app.JackalApp) {
+				var mg mtypes.GenesisState
+				a.AppCodec().MustUnmarshalJSON(gs["jklmint"], &mg)
+				mg.Params.TokensPerBlock = tpb
+				gs["jklmint"] = a.AppCodec().MustMarshalJSON(&mg)
+			})
+		}
+		f.c = chain.New(muts...)
 	}()
 	if f.dead != "" {
 		f.c = nil
 		f.halted = false
-		return M{"big": true}
+		return M{"big": true, "split": M{"rs": int64(0), "rd": int64(0), "rp": int64(0), "rem": int64(0)}}
 	}
 	f.c.Step = 24 * 3600 * 1e9
 	f.halted = false
@@ -143,6 +155,7 @@ func (f *chainFam) Reset() M {
 		f.lgInit()
 		f.lgBig = false
 		f.lgBase = f.lgTake()
+		f.lgPrev = nil
 	}
 	return f.Project()
 }
@@ -152,7 +165,7 @@ func (f *chainFam) Project() M {
 		return M{}
 	}
 	if f.c == nil {
-		return M{"big": true}
+		return M{"big": true, "split": M{"rs": int64(0), "rd": int64(0), "rp": int64(0), "rem": int64(0)}}
 	}
 	return f.lgProject(f.lgTake())
 }
@@ -217,6 +230,14 @@ func (f *chainFam) deliver(m sdk.Msg) M {
 	return ev
 }
 
+// spelled returns the address as is or, every third time, in the all-upper-case bech32 spelling (equally valid, same account)
+func (f *chainFam) spelled(addr string) string {
+	if f.rng.Intn(3) == 0 {
+		return strings.ToUpper(addr)
+	}
+	return addr
+}
+
 // flow builds a plausible token-moving message of the custom modules (ledger mode): bids, cancellations,
 // acceptances, purchases and registrations of names, provider collateral in and out, plan purchases with and
 // without referral, files paid one by one.
@@ -246,9 +267,9 @@ func (f *chainFam) flow() sdk.Msg {
 		return &rtypes.MsgRegisterName{Creator: who("a", "b", "c"), Name: n, Years: int64(1 + r.Intn(2)), Data: "{}"}
 	case 6:
 		p := pick("p1", "p2", "p3", "p4", "c")
-		return &stypes.MsgInitProvider{Creator: f.c.Acct(p).S(), Ip: domURL(p, "d"+fmt.Sprint(1+r.Intn(3))), Keybase: "kb", TotalSpace: 1_000_000}
+		return &stypes.MsgInitProvider{Creator: f.spelled(f.c.Acct(p).S()), Ip: domURL(p, "d"+fmt.Sprint(1+r.Intn(3))), Keybase: "kb", TotalSpace: 1_000_000}
 	case 7:
-		return &stypes.MsgShutdownProvider{Creator: who("p1", "p2", "p3", "p4", "c")}
+		return &stypes.MsgShutdownProvider{Creator: f.spelled(who("p1", "p2", "p3", "p4", "c"))}
 	case 8, 9:
 		m := &stypes.MsgBuyStorage{Creator: who("a", "b", "c"), ForAddress: who("a", "b", "c"), DurationDays: []int64{30, 60, 366, 720}[r.Intn(4)],
 			Bytes: []int64{1_000_000_000, 3_000_000_000, 6_000_000_000}[r.Intn(3)], PaymentDenom: "ujkl"}
